@@ -154,7 +154,9 @@ CHECKS = {
                      "serialises real pthreads with a baton. For each of ~580 harnesses (all pairs of a 28-op colliding alphabet, 2x2 and 3x1 over a core, C and "
                      "comma locale) a serial pass computes the contested locations (the library has no synchronisation, so one contested location is a data race) and "
                      "all schedules with at most 2 (thorough 3) preemptions over contested accesses, libc seams, op boundaries and library function entries are "
-                     "enumerated; every completed schedule must reproduce the serial results. The first schedule is replayed for determinism.",
+                     "enumerated; every completed schedule must reproduce the serial results. The first schedule is replayed for determinism. In addition to the 28 "
+                     "hand-written ops every value-returning entry point is run against itself (two threads, two different succeeding / failing tuples from the C03 "
+                     "product; ~900 generated ops over ~300 functions), so a static scratch variable or memo inside any function is a contested location.",
                 note="Sequential consistency (DRF-SC argument); memcpy/memset intrinsics and libc internals are not instrumented - the free-running 16-thread TSan "
                      "pass (sampled, cross-check only) covers those; more than 3 threads only there."),
     "C18": dict(level="exploration", engine="ENUM", ref="4/C18",
@@ -164,7 +166,9 @@ CHECKS = {
                      "object fields when C succeeds, exception of the mapped type with the C message exactly when C reports an error, equal live-block balance per "
                      "call (leaks keyed by allocation site), no extra sanitizer report; wrapper objects are used after the C originals were released.",
                 note="NULL strings / NULL crystals cannot be expressed through std::string / Struct& overloads and are skipped on the C++ side (counted); "
-                     "bad_alloc only by type (allocation failure is not injected); quick strides each plan to 400k tuples."),
+                     "the bad_alloc path is exercised by an allocation-failure pass (library variant 'fa': only the library's own allocation requests go through a seam; every "
+                     "failure point k = 1, 2, ... of up to 3 succeeding tuples per wrapper; evaluated where the C function reports the failure, 217 points per configuration); "
+                     "the plain pass runs with errno preset to ENOMEM; quick strides each plan to 400k tuples."),
 }
 NOT_YET = {}
 ALL = ["C%02d" % i for i in range(1, 21)]
